@@ -18,7 +18,7 @@ PROOF_NOTE = ("Trusted: Lean 4.33 kernel with axioms {propext, Classical.choice,
 PROPS = {
     "C09": {
         "level": "proof",
-        "text": "Kernel-checked theorems for every label list (= every schedule, number of senders, capacity): mailbox occupancy + reserved permits <= capacity; ok_tell_was_accepted (a tell that returned Ok has its accepted event in the history or, if the actor dropped its receivers while the sender held its slot, lies in the closed channel of the ended actor: Inv/OkAcc.lean); capacity/default/once-only configuration proved on functions translated from src/lib.rs on every run. The model is validated against the real crate by per-run correspondence (seeded scripts on a paused Tokio runtime) and the occupancy monitor runs on every real trace. Real threads: a spawn_blocking sender's blocking_tell(.., None) calls into a full capacity-1 mailbox all wait and return Ok (stress blocking a2); a cancelled send holds no slot (stress cancel). Step-level, any state: free_slot_no_wait (a send issued while a slot is free and nobody is queued ahead holds its permit at once) and full_mailbox_waits (otherwise it is queued FIFO: no failure recorded, mailbox untouched). no_idle_slot (every reachable state): while the mailbox is open, a sender is queued without a permit only when mailbox items + permits handed out = capacity. Net engine (detection build): a hook's tell into its own full mailbox waits or times out - it never ends the hook with a panic. Real clock (late): a timed tell whose slot is freed well before the deadline while the runtime thread stays busy past it returns Ok. send_error_only_after_end (Inv/SendErr.lean): an operation answered with Err(Send) was answered after the actor's task had finished - a running actor never refuses a message; the trace monitor C09.failOnlyWhenClosed checks it, with the event order, on every real trace. Stress scenario `stale`: after a timed tell gave up and a stop() was abandoned while waiting for a slot, a plain tell into the still-full mailbox waits and is accepted.",
+        "text": "Kernel-checked theorems for every label list (= every schedule, number of senders, capacity): mailbox occupancy + reserved permits <= capacity; ok_tell_was_accepted (a tell that returned Ok has its accepted event in the history or, if the actor dropped its receivers while the sender held its slot, lies in the closed channel of the ended actor: Inv/OkAcc.lean); capacity/default/once-only configuration proved on functions translated from src/lib.rs on every run. The model is validated against the real crate by per-run correspondence (seeded scripts on a paused Tokio runtime) and the occupancy monitor runs on every real trace. Real threads: a spawn_blocking sender's blocking_tell(.., None) calls into a full capacity-1 mailbox all wait and return Ok (stress blocking a2); a cancelled send holds no slot (stress cancel). Step-level, any state: free_slot_no_wait (a send issued while a slot is free and nobody is queued ahead holds its permit at once) and full_mailbox_waits (otherwise it is queued FIFO: no failure recorded, mailbox untouched). no_idle_slot (every reachable state): while the mailbox is open, a sender is queued without a permit only when mailbox items + permits handed out = capacity. Net engine (detection build): a hook's tell into its own full mailbox waits or times out - it never ends the hook with a panic. Real clock (late): a timed tell whose slot is freed well before the deadline while the runtime thread stays busy past it returns Ok. send_error_only_after_end (Inv/SendErr.lean): an operation answered with Err(Send) was answered after the actor's task had finished - a running actor never refuses a message; the trace monitor C09.failOnlyWhenClosed checks it, with the event order, on every real trace. Stress scenario `stale`: after a timed tell gave up and a stop() was abandoned while waiting for a slot, a plain tell into the still-full mailbox waits and is accepted. ok_stop_was_accepted_or_closed (Inv/OkStop.lean): a stop() that returned Ok put its marker into the mailbox or met an actor whose task had already finished.",
         "note": PROOF_NOTE,
         "technique": "Lean 4 invariant proof by induction over label sequences + translated config functions + model/implementation correspondence",
         "monitors": ["C09"],
@@ -104,7 +104,7 @@ PROPS.update({
 PROPS.update({
     "C03": {
         "level": "proof",
-        "text": "Kernel-checked for every run: reply_integrity (on the monitor predicate), ended_clean, later_fail, and completes - once the actor has ended every operation still in flight (queued for a permit, holding a permit, awaiting a reply, even with its envelope pushed after the receivers were dropped) completes within two of its own steps. The last case relies on the repaired reply wait, whose presence is extracted from src/actor_ref.rs on every run (Extracted.ask_wait_watches_closed). Correspondence + monitors C03.replyIntegrity / nothingPendingAfterEnd / laterFail on real traces. Progress (every schedule): no_operation_left_hanging - in every reachable state in which nothing can run any more (neither the actor's task nor a client operation) and the actor is idle or has ended, every operation ever issued has returned: no ask still waits for a reply, no send for a slot (Inv/Progress.lean: NoIdleSlot, ProgInv, quiescent_all_returned). Stress scenario `queuedask`: asks with reply types String, (), Option<String> and Vec<u8> still queued when the actor ends (kill, or behind a stop marker) fail with Err(Receive), unhandled, with one dead letter - never an Ok. Theorem settled_scheduler_all_returned restates the progress theorem in the scheduler's terms (Exec.runnable = []). queuedask also re-asks through the same handle value after an ask was given up while queued: the second ask gets its own handler's value (same type, other type, timed).",
+        "text": "Kernel-checked for every run: reply_integrity (on the monitor predicate), ended_clean, later_fail, and completes - once the actor has ended every operation still in flight (queued for a permit, holding a permit, awaiting a reply, even with its envelope pushed after the receivers were dropped) completes within two of its own steps. The last case relies on the repaired reply wait, whose presence is extracted from src/actor_ref.rs on every run (Extracted.ask_wait_watches_closed). Correspondence + monitors C03.replyIntegrity / nothingPendingAfterEnd / laterFail on real traces. Progress (every schedule): no_operation_left_hanging - in every reachable state in which nothing can run any more (neither the actor's task nor a client operation) and the actor is idle or has ended, every operation ever issued has returned: no ask still waits for a reply, no send for a slot (Inv/Progress.lean: NoIdleSlot, ProgInv, quiescent_all_returned). Stress scenario `queuedask`: asks with reply types String, (), Option<String> and Vec<u8> still queued when the actor ends (kill, or behind a stop marker) fail with Err(Receive), unhandled, with one dead letter - never an Ok. Theorem settled_scheduler_all_returned restates the progress theorem in the scheduler's terms (Exec.runnable = []). queuedask also re-asks through the same handle value after an ask was given up while queued: the second ask gets its own handler's value (same type, other type, timed). kill_wins: with a kill signal pending and the actor not yet stopping, every step into on_stop other than an on_run error carries killed=true - including the loop's second look at the control channel when it finds the stop marker or the closed mailbox (the repair of the C06 defect, 34034cc; pinned in the source by lifecycle_arms.mailRechecksKill). Stress scenario `killdrop` (multi-thread): kill(), then the last reference dropped (or stop() and the drop), against an actor whose loop is polled all the time: always on_stop(killed=true), reported as killed (20,000 trials quick, 120,000 thorough; the unrepaired crate fails within the first hundred).",
         "note": PROOF_NOTE + " ask_join is covered by the existing suite only. The stranding interleaving exists only with true parallelism; on the real code it is exercised by the multi-thread hammer (thorough).",
         "technique": "Lean 4 invariant proofs + progress theorem over label sequences + extraction of the reply-wait protocol + correspondence",
         "extra": ["stress"],
